@@ -124,7 +124,7 @@ pub fn e1_jobs(prop: &str, tier: Tier) -> (Vec<E1Job>, usize) {
 pub fn need_for(prop: &str) -> Need {
     Need {
         debug: matches!(prop, "C20" | "C18"),
-        counters: prop == "C04",
+        counters: prop == "C04" || prop == "C07",
         setup_dispose: prop == "C13",
         sendable: prop == "C12",
     }
